@@ -6,6 +6,7 @@ mod jtree;
 mod ops_defs;
 mod ops_enc;
 mod ops_json;
+mod ops_ns;
 mod ops_time;
 mod ops_total;
 mod ops_zinc;
@@ -28,6 +29,7 @@ fn dispatch(vec: &J, out: &mut Out, wk: &mut Option<worker::Worker>) -> Result<(
         "hayson" => ops_json::run(vec).map(|e| out.emit(e)),
         "enc" => ops_enc::run(vec).map(|e| out.emit(e)),
         "defs" => ops_defs::run(vec, out),
+        "ns" => ops_ns::run(vec, out),
         "time" => ops_time::run(vec, out),
         "filter" => ops_filter::run(vec, out, wk.get_or_insert_with(worker::Worker::new)),
         "dec" | "stab" => ops_total::run(vec, out, wk.get_or_insert_with(worker::Worker::new)),
@@ -81,6 +83,12 @@ fn main() {
                     }
                 }
                 "fuzz" => ops_total::rec_fuzz(&mut out, seed, n),
+                "ns" => {
+                    if let Err(e) = ops_ns::rec(&mut out, seed, n) {
+                        eprintln!("TOOL-ERROR: {e}");
+                        std::process::exit(2);
+                    }
+                }
                 "defs" => {
                     if let Err(e) = ops_defs::rec(&mut out, seed, n) {
                         eprintln!("TOOL-ERROR: {e}");
